@@ -1205,6 +1205,56 @@ func c17NoColorValue(v ssa.Value, d int) bool {
 			s, _ := ssau.ConstString(call.Common().Args[1])
 			return s == "no-color"
 		}
+	case *ssa.Call:
+		// a predicate helper of the repository given the flag: it must answer
+		// true whenever the flag is set and whenever NO_COLOR is in the
+		// environment (it may have more reasons to)
+		h := x.Common().StaticCallee()
+		if h == nil || len(h.Blocks) == 0 || len(h.Params) != 1 || len(x.Common().Args) != 1 {
+			return false
+		}
+		arg := ssau.ResolveCell(x.Common().Args[0])
+		ex, ok := arg.(*ssa.Extract)
+		if !ok || ex.Index != 0 {
+			return false
+		}
+		gc, ok := ex.Tuple.(*ssa.Call)
+		if !ok || !strings.HasSuffix(ssau.CallName(gc), "FlagSet).GetBool") {
+			return false
+		}
+		if s, _ := ssau.ConstString(gc.Common().Args[1]); s != "no-color" {
+			return false
+		}
+		flagFalse, envFalse := map[[2]int]bool{}, map[[2]int]bool{}
+		for _, iff := range ssau.Ifs(h) {
+			cond, neg := iff.Cond, 0
+			if u, isU := cond.(*ssa.UnOp); isU && u.Op == token.NOT {
+				cond, neg = u.X, 1
+			}
+			if cond == ssa.Value(h.Params[0]) || ssau.ParamOf(cond) == h.Params[0] {
+				flagFalse[[2]int{iff.Block().Index, 1 - neg}] = true
+			}
+			if e2, isEx := cond.(*ssa.Extract); isEx && e2.Index == 1 {
+				if lc, isC := e2.Tuple.(*ssa.Call); isC && ssau.CallName(lc) == "os.LookupEnv" {
+					if s, _ := ssau.ConstString(lc.Common().Args[0]); s == "NO_COLOR" {
+						envFalse[[2]int{iff.Block().Index, 1 - neg}] = true
+					}
+				}
+			}
+		}
+		if len(flagFalse) == 0 || len(envFalse) == 0 {
+			return false
+		}
+		for _, ret := range ssau.ReturnsOf(h) {
+			if ssau.IsConstBool(ssau.ResultValue(ret, 0), true) {
+				continue
+			}
+			// any other answer is given only with the flag unset and NO_COLOR absent
+			if ssau.ReachableAvoidingEdges(h, ret.Block(), flagFalse) || ssau.ReachableAvoidingEdges(h, ret.Block(), envFalse) {
+				return false
+			}
+		}
+		return true
 	case *ssa.Phi:
 		flag := false
 		nEnv := 0
